@@ -354,7 +354,7 @@ PROPS['C11'] = {
     'module': 'SuironVerif.Props.C11',
     'theorems': ['Suiron.C11.rename_commutes_partial', 'Suiron.C11.rename_commutesL_partial', 'Suiron.C11.counter_independent_partial',
                  'Suiron.C11.beq_names_partial', 'Suiron.C11.beqL_names_partial', 'Suiron.C11.unification_blind_to_names', 'Suiron.C11.rename_apart_commutes',
-                 'Suiron.C11.C11_machine'],
+                 'Suiron.C11.C11_machine', 'Suiron.C11.C11_machine_with_cut', 'Suiron.C11.C11_engine'],
     'oracles': ['C11'],
     'suites': {
         'quick': [{'suite': 'engine', 'args': ['--alpha', '--props', 'C11', '--n', '700']}, {'suite': 'engine', 'args': ['--alpha', '--props', 'C11', '--n', '500', '--pure']},
@@ -365,11 +365,12 @@ PROPS['C11'] = {
     'rule': E_RULE + " Each program is run four times: as generated (rules and query share one pool of variable names), with per-rule fresh names, with one permutation "
             "of the shared pool applied to all rules, and with long non-ASCII names.",
     'design_ref': '5.11',
-    'assumptions': ["PARTIAL: C11_machine proves the lift to whole runs for the reference machine (whose runs the engine model's requests are, C01) on the fragment without built-in "
-                    "predicates and function terms: a knowledge base whose rules are each renamed by an injective map of their own gives, for every query, the same "
-                    "observations (answers, order, output) with the bindings renamed; proved from unification_blind_to_names (unify commutes with a renaming that is injective "
-                    "for each id) and rename_apart_commutes (same ids whatever the names). Programs with built-in predicates or function terms (print, join, ... write variable "
-                    "names) are decided by the oracle",
+    'assumptions': ["PARTIAL: C11_engine proves the property for the ENGINE MODEL on the whole control language (calls with atom functors, !, conjunctions and disjunctions nested to any "
+                    "depth, not, time) without other built-in predicates and function terms: a knowledge base whose rules are each renamed by an injective map of their own gives, "
+                    "request by request, the renamed answers with the same output. It follows from C11_machine_with_cut / C11_machine (the reference machines are blind to names: "
+                    "every step on kb is the same step on kb' between renamed configurations), the refinement of C01 for both knowledge bases and the determinism of the machine; "
+                    "underneath, unification_blind_to_names (unify commutes with a renaming that is injective for each id) and rename_apart_commutes (same ids whatever the names). "
+                    "Programs with other built-in predicates or function terms (print, join, ... write variable names) are decided by the oracle",
                     "oracle on the implementation: the four runs give the same answers (variables numbered by first occurrence), in the same order, with the same output "
                     "(names of printed unbound variables masked)"],
 }
@@ -598,8 +599,8 @@ LEVEL_TEXT = {
            'tail markers, the empty list, nesting); there is one map from names to ids such that every variable carries the id of its name, distinct names get distinct '
            'ids, every new id is above the starting counter and at most the new counter; make_query starts from 0. Tied to unifiable.rs / rule.rs / goal.rs by the rename '
            'suite (whole renamed rules compared) and, mid-search, by the engine suite.',
-    'C11': 'PARTIAL proof: for the reference machine (of which the requests of the engine model are runs, C01) on programs without built-in predicates and function terms (calls, conjunction, disjunction, not) the property is proved outright (C11_machine): if each rule of the knowledge base is renamed by an injective map of its own - maps may differ from rule to rule and may reuse the names of the query - every run of every query shows the same answers in the same order with the same output, the bindings renamed by a map that is the identity on the variables of the query. Underneath: unification commutes with a renaming that is injective for each variable id; renaming apart hands out ids by first occurrence only and commutes with a renaming of names; term comparison is blind to it. '
-           'Programs with built-in predicates and function terms are decided on the implementation by running every generated program under four alpha-renamings and comparing answers, order and output.',
+    'C11': 'PARTIAL proof: for the ENGINE MODEL (and the reference machines its requests are runs of, C01) on programs without built-in predicates other than the cut and without function terms - calls, cut, conjunction and disjunction nested to any depth, not, time - the property is proved outright (C11_engine, C11_machine_with_cut, C11_machine): if each rule of the knowledge base is renamed by an injective map of its own - maps may differ from rule to rule and may reuse the names of the query - then request by request every query gets the same answers in the same order with the same output, the bindings renamed by a map that is the identity on the variables of the query. Underneath: unification commutes with a renaming that is injective for each variable id; renaming apart hands out ids by first occurrence only and commutes with a renaming of names; a renaming commutes with everything the cut does; term comparison is blind to it. '
+           'Programs with other built-in predicates and function terms are decided on the implementation by running every generated program under four alpha-renamings and comparing answers, order and output.',
     'C15': 'Proved in Lean for all element lists: lists built by append/include/exclude hold exactly their elements (a list-valued or empty element stays one element), are '
            'well formed and record their length; the documented constructor yields the given terms, a trailing tail variable as tail, a trailing (possibly empty) list '
            'spliced in as the rest; renaming keeps every cell, count and tail marker and the empty list. Tied to the code by the lists, rename and builtins suites.',
